@@ -853,6 +853,108 @@ def iso4_hypotheses(ctx, kept, shard):
             ctx.count("isomorphism-hypotheses:fail(other)")
 
 
+HEADER5 = ("From DV Require Import Model.PyPrims Model.C12Model Model.C12Spec2 Model.C12Spec3 Model.C12Spec4.\n"
+           "From Coq Require Import ZArith. Open Scope Z_scope.")
+
+
+def _ns_side(tgt):
+    """does an address name the namespace, a taxon, or an annotation of one of them?"""
+    return tgt[0] in ("ns", "taxon") or (tgt[0] == "ann" and _ns_side(tgt[1]))
+
+
+def _refs_in(spec):
+    if spec[0] == "ref":
+        yield spec[1]
+    elif spec[0] in ("list", "tuple"):
+        for x in spec[1]:
+            for r in _refs_in(x):
+                yield r
+    elif spec[0] == "dict":
+        for _k, x in spec[1]:
+            for r in _refs_in(x):
+                yield r
+
+
+def _has_empty_tuple(spec):
+    if spec[0] == "tuple":
+        return not spec[1] or any(_has_empty_tuple(x) for x in spec[1])
+    if spec[0] == "list":
+        return any(_has_empty_tuple(x) for x in spec[1])
+    if spec[0] == "dict":
+        return any(_has_empty_tuple(x) for _k, x in spec[1])
+    return False
+
+
+def crosses_namespace_boundary(case):
+    """Naive reading of the case description: does a decoration make something on the namespace side (the
+    namespace, a taxon, one of their annotations) refer to an object of the copied structure, or the structure
+    refer to an INNER object of the namespace side (an annotation of the namespace / of a taxon)?  These are the
+    inputs on which source and copy share more than the namespace and its taxa by construction."""
+    for d in case.get("deco", []):
+        k = d[0]
+        if k in ("ann", "extra", "bound", "cell_ann"):
+            tgt = d[1] if k != "cell_ann" else ["seq", d[1]]
+            val = d[-1]
+            for r in _refs_in(val):
+                if _ns_side(tgt) and not _ns_side(r):
+                    return True
+                if not _ns_side(tgt) and r[0] == "ann" and _ns_side(r):
+                    return True
+        elif k == "bound_other":
+            obj, owner, val = d[1], d[2], d[4]
+            if _ns_side(obj) and not _ns_side(owner):
+                return True
+            if not _ns_side(obj) and owner[0] == "ann" and _ns_side(owner):
+                return True
+            for r in _refs_in(val):
+                if _ns_side(owner) and not _ns_side(r):
+                    return True
+                if not _ns_side(owner) and r[0] == "ann" and _ns_side(r):
+                    return True
+    return False
+
+
+def iso5_hypotheses(ctx, kept, shard):
+    """sixth wave: on how many cases does the privacy hypothesis of deepcopy_isomorphism_strict hold (wf_heap5 on top
+    of the hypotheses of deepcopy_isomorphism)?  Counted; among the cases that satisfy the hypotheses of
+    deepcopy_isomorphism the failures are classified: expected exactly when a decoration crosses the namespace
+    boundary (see crosses_namespace_boundary) - the honest domain of the strict theorem; anything else is counted
+    as fail(other) and listed in the notes."""
+    run = [(c, t) for c, t in kept if "(ESkip" not in t]
+    if not run:
+        return
+    terms = [t for _, t in run]
+    bad4, err4 = core.run_cases(ctx.pid, HEADER5, "case_iso4_hyp", terms, shard=max(shard, 100), tag="_iso5a")
+    bad5, err5 = core.run_cases(ctx.pid, HEADER5, "case_iso5_hyp", terms, shard=max(shard, 100), tag="_iso5b")
+    badc, errc = core.run_cases(ctx.pid, HEADER5, "case_priv_conts", terms, shard=max(shard, 100), tag="_iso5d")
+    errors = err4 + err5 + errc
+    ctx.obligation("strict-isomorphism (privacy) hypotheses evaluated on %d cases (vm_compute)" % len(run), not errors)
+    for e in errors:
+        ctx.notes.append(e[:1500])
+    if errors:
+        return
+    bad4, bad5, badc = set(bad4), set(bad5), set(badc)
+    ctx.count("strict-isomorphism-hypotheses:hold", len(run) - len(bad5))
+    ctx.count("strict-isomorphism-hypotheses:fail(already outside deepcopy_isomorphism)", len(bad5 & bad4))
+    # the container part never fails on a dumped heap: nothing but its AnnotationSet refers to an _item_list / _item_set
+    ctx.obligation("owned _item_list/_item_set are referred to by their annotation set only, on every dumped heap (%d cases)"
+                   % len(run), not badc)
+    other = []
+    for i in sorted(bad5 - bad4):
+        c = run[i][0]
+        if crosses_namespace_boundary(c):
+            ctx.count("strict-isomorphism-hypotheses:fail(decoration crosses the namespace boundary)")
+        else:
+            ctx.count("strict-isomorphism-hypotheses:fail(other)")
+            other.append(c)
+    n_cross = sum(1 for c, _t in run if crosses_namespace_boundary(c))
+    ctx.count("cases whose decoration crosses the namespace boundary", n_cross)
+    if other:
+        ctx.notes.append("strict-isomorphism hypotheses fail on %d case(s) that no decoration explains; first: %s"
+                         % (len(other), json.dumps({"type": other[0]["type"], "route": other[0]["route"],
+                                                    "deco": other[0]["deco"]})[:1200]))
+
+
 def run(tier, seed, replay=None):
     ctx = core.Ctx("C12", tier, seed)
     ctx.assumptions = [
@@ -901,6 +1003,7 @@ def run(tier, seed, replay=None):
                     search=search, shard=shard, sample_fn=sample_fn)
     iso_hypotheses(ctx, kept, shard)
     iso4_hypotheses(ctx, kept, shard)
+    iso5_hypotheses(ctx, kept, shard)
     shallow_stage(ctx, cases, obs_cached, max(shard, 100))
     return ctx.finish(level="proof",
                       rule="random decorated trees (<=60 nodes), tree lists, DNA/standard/continuous matrices and namespaces; "
